@@ -5,10 +5,11 @@ when a range of cells is deleted from them.  Core Lean only; cell references are
 parsed with the C20 model (`XlModel.Ref`).
 
 A rule is its `sqref` text.  `flatSqref` expands it to cells, grouped per column in
-order of appearance (a Go map: the order ACROSS columns is unspecified, so results
-are compared as cell sets); every cell of the delete range is removed once (first
-occurrence); each column is squashed back into runs; a rule with no run left is
-spliced out of the list and the loop index steps back.
+order of appearance; every occurrence of every cell of the delete range is removed;
+a rule that had no such cell is left as it is; otherwise the columns are taken left to
+right, their rows sorted, each column squashed back into runs; a rule with no run left
+is spliced out of the list and the loop index steps back. (Results are compared as
+cell sets.)
 -/
 import XlModel.Ref
 
@@ -63,8 +64,18 @@ def flatTokens : List (List Char) → Except Err (List Cell)
 /-- `flatSqref` (cells in order of appearance; the per-column grouping is `colRows`) -/
 def flatSqref (s : List Char) : Except Err (List Cell) := flatTokens (splitOnSpace s)
 
-/-- remove each cell of `del` once (first occurrence): the `inCoordinates` loop -/
-def eraseCells (cells del : List Cell) : List Cell := del.foldl (fun acc c => acc.erase c) cells
+/-- remove every occurrence of every cell of `del` (the repaired `inCoordinates` loop) -/
+def removeCells (cells del : List Cell) : List Cell := cells.filter (fun c => !del.contains c)
+
+/-- does the rule have a cell in the deleted range? (`hit`) -/
+def hits (cells del : List Cell) : Bool := cells.any (fun c => del.contains c)
+
+def insertInt (x : Int) : List Int → List Int
+  | [] => [x]
+  | y :: ys => if x ≤ y then x :: y :: ys else y :: insertInt x ys
+
+/-- `sort.Ints` / `sort.Slice` by row: ascending, duplicates kept -/
+def sortInts (l : List Int) : List Int := l.foldr insertInt []
 
 /-- the run loop of `squashSqref` on the rows of one column: `l`, `r` are the rows at the
 indices `l`, `r` of the Go loop (`r` is always the previous element) -/
@@ -88,10 +99,15 @@ def dedup : List Int → List Int
 
 def colRows (cells : List Cell) (c : Int) : List Int := (cells.filter (fun p => p.1 == c)).map (·.2)
 
-/-- one rule after the deletion: the cells its rewritten sqref denotes (column order arbitrary) -/
+/-- one rule after the deletion: the cells its sqref denotes afterwards. A rule without a cell
+in the range keeps its sqref text; otherwise the remaining cells are regrouped per column
+(columns left to right, rows ascending) and squashed into runs -/
 def rewriteRule (cells del : List Cell) : List Cell :=
-  let rest := eraseCells cells del
-  (dedup (cells.map (·.1))).flatMap fun c => (squashRows (colRows rest c)).flatMap (runCells c)
+  if !hits cells del then cells
+  else
+    let rest := removeCells cells del
+    (sortInts (dedup (cells.map (·.1)))).flatMap fun c =>
+      (squashRows (sortInts (colRows rest c))).flatMap (runCells c)
 
 /-- Impl: the loop of `DeleteDataValidation` over the stored rules (cells of each rule in
 `flatSqref` order): rewritten rules, emptied ones spliced out -/
